@@ -222,6 +222,30 @@ def record_patterns(rep, tier):
   rep.coverage['evaluations'] = rep.coverage.get('evaluations', 0) + runs
 
 
+def unnest_order(rep, tier):
+  """RuleStructure.SortUnnestings on a set of unnestings given in two different orders: the same result
+  (theorem C07_from_order_independent_of_conjunct_order is about the model Core/Unnest.v, tied in the C09 check)."""
+  from props import unnesttie
+  r = common.rng('c07-unnest-order')
+  n = 300 if tier == 'quick' else 20000
+  bad = 0
+  for _ in range(n):
+    items = unnesttie.gen_case(r)
+    a = unnesttie.real_sort(items)
+    shuffled = list(items)
+    r.shuffle(shuffled)
+    b = unnesttie.real_sort(shuffled)
+    if a != b and bad < 2:
+      bad += 1
+      rep.violation('unnest-order-depends-on-input-order', {
+          'unnestings': [[nm, ms, comb] for nm, ms, comb in items], 'order_1': a,
+          'unnestings_shuffled': [[nm, ms, comb] for nm, ms, comb in shuffled], 'order_2': b,
+          'law': 'the order of the UNNEST items of the FROM list does not depend on the order of the `in` conjuncts',
+          'how': 'props.unnesttie.real_sort (RuleStructure.SortUnnestings)'})
+  rep.coverage['unnest_order_runs'] = 2 * n
+  rep.coverage['evaluations'] = rep.coverage.get('evaluations', 0) + 2 * n
+
+
 def run(tier, replay=None):
   rep = common.Report(PID, tier, 'other')
   rep.assumptions = [
@@ -246,4 +270,5 @@ def run(tier, replay=None):
     arrival_order(rep, tier)
     sibling_scopes(rep, tier)
     record_patterns(rep, tier)
+    unnest_order(rep, tier)
   return rep.finish()
